@@ -49,6 +49,9 @@ func (m *Mutex) TryLock() bool {
 func (m *Mutex) Unlock() {
 	m.st.Writer = false
 	m.real.Unlock()
+	if s := vrt.Active(); s != nil {
+		s.Point(vrt.OpUnlock, vrt.CallerLabel(2)+":Unlock(after)", nil)
+	}
 }
 
 // RWMutex: see Mutex. Writer preference of the real RWMutex is modelled: Lock with active readers first
@@ -95,6 +98,9 @@ func (m *RWMutex) TryLock() bool {
 func (m *RWMutex) Unlock() {
 	m.st.Writer = false
 	m.real.Unlock()
+	if s := vrt.Active(); s != nil {
+		s.Point(vrt.OpUnlock, vrt.CallerLabel(2)+":Unlock(after)", nil)
+	}
 }
 
 func (m *RWMutex) RLock() {
@@ -128,6 +134,9 @@ func (m *RWMutex) RUnlock() {
 	m.st.Readers--
 	m.rmu.Unlock()
 	m.real.RUnlock()
+	if s := vrt.Active(); s != nil {
+		s.Point(vrt.OpUnlock, vrt.CallerLabel(2)+":RUnlock(after)", nil)
+	}
 }
 
 type rlocker RWMutex
